@@ -4,8 +4,10 @@ import (
 	"context"
 	"errors"
 	"fmt"
+	"os"
 	"runtime"
 	"strings"
+	"sync"
 	"time"
 
 	"github.com/arr-ai/arrai/pkg/fu"
@@ -42,6 +44,12 @@ type c11Body struct {
 	// allowed, if not nil, decides whether a thread's result is acceptable given the
 	// operations of all threads (default: equal to the operation's serial result).
 	allowed func(me int, combo []int, got string, serial []string) bool
+	// free: the body is too long for schedule enumeration (thousands of synchronisation
+	// points per execution); its combinations are run once each on real goroutines, with the
+	// race detector and the serial results as oracles (the complementary free-running pass).
+	free bool
+	// delay: budget counts every departure from the deterministic default schedule (see Stats.Delay)
+	delay bool
 }
 
 type yes struct{}
@@ -86,6 +94,9 @@ func evalWith(src string, kv ...any) string {
 	return safeStr(func() string {
 		v, err := e.Eval(context.Background(), sc)
 		if err != nil {
+			if os.Getenv("VERIF_C11_DEBUG") != "" {
+				return "error:" + core.NormMsg(err.Error())
+			}
 			return "error"
 		}
 		return fu.Repr(v)
@@ -208,9 +219,9 @@ func c11Bodies(thorough bool) []c11Body {
 	bigSet := func() any { return mustVal("{0, 1, 2, 3, 4, 5, 6, 7, 8, 9, 10, 11}") }
 	fanOps := []c11Op{
 		{"where-all-pass", func(s any) string { return evalWith("s where . < 100", "s", s) }},
-		{"where-one-fails", func(s any) string { return evalWith("s where (v: .) -> cond {.v = 7: .zz, _: true}", "s", s) }},
+		{"where-one-fails", func(s any) string { return evalWith("s where ((v: .) -> cond {.v = 7: .zz, _: true})", "s", s) }},
 		{"where-two-fail", func(s any) string {
-			return evalWith("s where (v: .) -> cond {.v = 7: .zz, .v = 3: .zz, _: true}", "s", s)
+			return evalWith("s where ((v: .) -> cond {.v = 7: .zz, .v = 3: .zz, _: true})", "s", s)
 		}},
 		{"map", func(s any) string { return evalWith("s => . + 1", "s", s) }},
 		{"union", func(s any) string { return evalWith("s | {20, 21, 22, 23, 24, 25, 26, 27, 28, 29}", "s", s) }},
@@ -225,17 +236,64 @@ func c11Bodies(thorough bool) []c11Body {
 		}},
 		{"rel-join", func(s any) string { return evalWith("r <&> {|a, c| (1, 1), (7, 7)}", "r", s) }},
 	}
+	// process-wide lazily built state of the syntax package, reset to "never used" before every execution
+	freshLazies := func() any { syntax.VerifResetLazies(strings.NewReader("abc")); return nil }
+	lazyOps := []c11Op{
+		{"stdin", func(any) string {
+			return safeStr(func() string {
+				v, err := syntax.VerifStdinRead()
+				if err != nil {
+					return "error"
+				}
+				return fu.Repr(v)
+			})
+		}},
+		{"fix", func(any) string {
+			return safeStr(func() string { f, ft := syntax.FixFuncs(); return fmt.Sprint(f != nil, ft != nil, f, ft) })
+		}},
+		{"implicit-decoder", func(any) string { return safeStr(func() string { return fmt.Sprint(syntax.VerifImplicitDecoder()) }) }},
+		{"embedded-file", func(any) string {
+			return safeStr(func() string { return fmt.Sprint(len(syntax.VerifEmbedded("embed/implicit_import.arrai"))) })
+		}},
+	}
+	// building the std scope converts the whole arr.ai grammar into a value: thousands of
+	// first-use points per execution, so it only gets the free-running pass
+	scopeOps := []c11Op{
+		{"safe-std-scope", func(any) string {
+			return safeStr(func() string {
+				v, _ := syntax.SafeStdScope().Get("//")
+				return fmt.Sprint(v.(rel.Tuple).Names().OrderedNames())
+			})
+		}},
+		{"fix", lazyOps[1].f},
+		{"eval-//seq", func(any) string {
+			return safeStr(func() string {
+				e, err := syntax.Compile(context.Background(), syntax.NoPath, `//seq.join(",", ["a", "b"])`)
+				if err != nil {
+					return "compile error"
+				}
+				v, err := e.Eval(context.Background(), rel.EmptyScope)
+				if err != nil {
+					return "error"
+				}
+				return fu.Repr(v)
+			})
+		}},
+	}
 	n := 2
 	if thorough {
 		n = 3
 	}
 	return []c11Body{
+
+		{name: "process-lazies", threads: n, setup: freshLazies, ops: lazyOps},
 		{name: "shared-tuple-caches", threads: n, setup: freshTuple, ops: tupleOps},
 		{name: "shared-relation-index", threads: n, setup: freshRel, ops: relOps},
 		{name: "shared-compiled-expr", threads: n, setup: func() any { return nil }, ops: exprOps},
 		{name: "import-cache", threads: 3, setup: freshCache, ops: cacheOps, allowed: cacheAllowed},
-		{name: "frozen-fanout-set", threads: 1, setup: bigSet, ops: fanOps},
-		{name: "frozen-fanout-relation", threads: 1, setup: bigRel, ops: relFanOps},
+		{name: "frozen-fanout-set", threads: 1, setup: bigSet, ops: fanOps, delay: true},
+		{name: "frozen-fanout-relation", threads: 1, setup: bigRel, ops: relFanOps, delay: true},
+		{name: "std-scope-first-use", threads: 3, setup: func() any { syntax.VerifResetStdScope(); return freshLazies() }, ops: scopeOps, free: true},
 	}
 }
 
@@ -281,62 +339,103 @@ func checkC11(w *core.W) {
 				names[i] = b.ops[c].name
 			}
 			desc := b.name + ": " + strings.Join(names, " || ")
+			if b.free {
+				w.Case(func() string { return "concurrent|" + b.name + " ## " + desc + " (free-running)" }, func() {
+					b.setup()
+					res := make([]string, len(combo))
+					var wg sync.WaitGroup
+					for i, c := range combo {
+						i, c := i, c
+						wg.Add(1)
+						go func() {
+							defer wg.Done()
+							res[i] = b.ops[c].f(nil)
+						}()
+					}
+					wg.Wait()
+					syntax.StdScope() // rebuilt serially before anything else runs
+					w.Eval(true)
+					w.Count("free_running_executions", 1)
+					for i, c := range combo {
+						if res[i] != serial[c] {
+							w.Fail("spec", "concurrent|"+b.name+"|result-differs-from-serial:"+b.ops[c].name, desc+" (free-running)", fmt.Sprintf("thread %d got %s, alone it gives %s", i, short(res[i]), short(serial[c])))
+						}
+					}
+				})
+				continue
+			}
 			w.Case(func() string { return "concurrent|" + b.name + " ## " + desc }, func() {
-				st := &Stats{Outcomes: map[string]int64{}, States: map[string]bool{}}
+				st := &Stats{Outcomes: map[string]int64{}, States: map[string]bool{}, Delay: b.delay}
 				reported := map[string]bool{}
 				var res []string
-				Explore(func(prefix []int) *vsched.Exec {
-					res = make([]string, len(combo))
-					return vsched.Run(prefix, 20000, func() {
-						shared := b.setup()
-						var wg vsync.WaitGroup
-						for i, c := range combo {
-							i, c := i, c
-							wg.Add(1)
-							vsched.Go(func() {
-								defer wg.Done()
-								res[i] = b.ops[c].f(shared)
-							})
+				// iterative preemption bounding: every schedule with <=1 preemption first (complete,
+				// cheap), then the full bound under the execution cap
+				completed := -1
+				for _, bnd := range []int{1, bound} {
+					if st.Capped || bnd <= completed {
+						continue
+					}
+					Explore(func(prefix []int) *vsched.Exec {
+						res = make([]string, len(combo))
+						return vsched.Run(prefix, 20000, func() {
+							shared := b.setup()
+							var wg vsync.WaitGroup
+							for i, c := range combo {
+								i, c := i, c
+								wg.Add(1)
+								vsched.Go(func() {
+									defer wg.Done()
+									res[i] = b.ops[c].f(shared)
+								})
+							}
+							wg.Wait()
+						})
+					}, bnd, maxExecs, st, func(x *vsched.Exec, choices []int) {
+						w.Eval(len(x.Points) > 1)
+						w.AddTransitions(1)
+						fail := func(kind, detail string) {
+							sig := "concurrent|" + b.name + "|" + kind
+							if !reported[sig] {
+								reported[sig] = true
+								w.Fail("spec", sig, desc+"; schedule "+fmt.Sprint(choices), detail)
+							}
 						}
-						wg.Wait()
+						switch {
+						case x.Deadlock:
+							fail("deadlock:"+normBlocked(x.DeadlockInfo), x.DeadlockInfo)
+						case x.DeadlockInfo != "":
+							fail("panic:"+core.NormMsg(x.DeadlockInfo), x.DeadlockInfo)
+						default:
+							for i, c := range combo {
+								ok := res[i] == serial[c]
+								if b.allowed != nil {
+									ok = b.allowed(i, combo, res[i], serial)
+								}
+								if !ok {
+									fail("result-differs-from-serial:"+b.ops[c].name, fmt.Sprintf("thread %d (%s) got %s, alone it gives %s", i, b.ops[c].name, short(res[i]), short(serial[c])))
+								}
+							}
+						}
+						st.Outcomes[strings.Join(res, " # ")]++
 					})
-				}, bound, maxExecs, st, func(x *vsched.Exec, choices []int) {
-					w.Eval(len(x.Points) > 1)
-					w.AddTransitions(1)
-					fail := func(kind, detail string) {
-						sig := "concurrent|" + b.name + "|" + kind
-						if !reported[sig] {
-							reported[sig] = true
-							w.Fail("spec", sig, desc+"; schedule "+fmt.Sprint(choices), detail)
-						}
+					if !st.Capped {
+						completed = bnd
 					}
-					switch {
-					case x.Deadlock:
-						fail("deadlock:"+normBlocked(x.DeadlockInfo), x.DeadlockInfo)
-					case x.DeadlockInfo != "":
-						fail("panic:"+core.NormMsg(x.DeadlockInfo), x.DeadlockInfo)
-					default:
-						for i, c := range combo {
-							ok := res[i] == serial[c]
-							if b.allowed != nil {
-								ok = b.allowed(i, combo, res[i], serial)
-							}
-							if !ok {
-								fail("result-differs-from-serial:"+b.ops[c].name, fmt.Sprintf("thread %d (%s) got %s, alone it gives %s", i, b.ops[c].name, short(res[i]), short(serial[c])))
-							}
-						}
-					}
-					st.Outcomes[strings.Join(res, " # ")]++
-				})
+				}
+				if os.Getenv("VERIF_C11_DEBUG") != "" {
+					df, _ := os.OpenFile(os.Getenv("VERIF_C11_DEBUG"), os.O_APPEND|os.O_CREATE|os.O_WRONLY, 0o644)
+					defer df.Close()
+					fmt.Fprintf(df, "DEBUG %s: execs=%d capped=%v completed=%d outcomes=%v\n", desc, st.Execs, st.Capped, completed, st.Outcomes)
+				}
 				w.Count("executions", st.Execs)
 				w.Count("scheduling_points", st.Points)
 				w.AddStates(len(st.States))
 				w.Note("outcomes", fmt.Sprintf("%s: %d", desc, len(st.Outcomes)))
 				if st.Capped {
-					w.Cap(fmt.Sprintf("%s: execution cap %d hit at preemption bound %d", desc, maxExecs, bound))
+					w.Cap(fmt.Sprintf("%s: execution cap %d hit at preemption bound %d (complete for <=%d preemptions)", desc, maxExecs, bound, completed))
 				}
 				if w.Shard == 0 {
-					w.Sample(map[string]any{"body": desc, "executions": st.Execs, "distinct_outcomes": len(st.Outcomes), "preemption_bound": bound})
+					w.Sample(map[string]any{"body": desc, "executions": st.Execs, "distinct_outcomes": len(st.Outcomes), "preemption_bound_completed": completed})
 				}
 			})
 		}
@@ -352,6 +451,6 @@ func short(s string) string {
 
 var C11 = core.Check{
 	ID: "C11", Level: "model_checking", Fn: checkC11, Watchdog: 300 * time.Second,
-	Rule: "stateless exploration under the controlled scheduler of harness bodies in which 2 (quick) / 3 (thorough) goroutines operate on the same freshly built object: a generic tuple with unset lazy caches (6 operations), a relation with an empty index cache (6 operations), one compiled expression with different scopes (3), and 3 goroutines on one import cache (same key, different key, failing add; add functions contain a scheduling point); plus single-caller bodies in which frozen's parallel fan-out (FROZEN_CONCURRENCY=-6, depth/gauge.go rewritten onto the scheduler) spreads where/=>/union/join callbacks over goroutines (predicates failing on 0, 1, 2 elements). Every ordered combination of operations x every schedule with <=2 (quick) / <=3 (thorough) preemptions; each goroutine's result must equal the operation's serial result (import cache: the outcome of some add for its key, never nil without error), no deadlock, and the Go race detector must stay silent for frames in arr.ai. non-trivial = execution with more than one scheduling point",
-	Assume: []string{"scheduling points are the sync.Mutex/RWMutex/Once/Cond/WaitGroup operations of arr.ai (every file importing sync is rebuilt against the shim) and the channel/go operations of frozen's gauge.go", "frozen itself and the Go runtime are trusted; the real fan-out threshold (131072 elements) is replaced by the library's own FROZEN_CONCURRENCY knob", "first use of the process-wide standard-library scopes is exercised only in pass-through mode (not explored)"},
+	Rule:   "stateless exploration under the controlled scheduler of harness bodies in which 2 (quick) / 3 (thorough) goroutines operate on the same freshly built object: a generic tuple with unset lazy caches (6 operations), a relation with an empty index cache (6 operations), one compiled expression with different scopes (3), 3 goroutines on one import cache (same key, different key, failing add; add functions contain a scheduling point), and the process-wide lazies of the syntax package reset to never-used before every execution through a verif hook (//os.stdin reader and cache, fix functions, implicit import decoder, embedded-file cache: 4 operations); plus single-caller bodies in which frozen's parallel fan-out (FROZEN_CONCURRENCY=-6, depth/gauge.go rewritten onto the scheduler) spreads where/=>/union/join callbacks over goroutines (predicates failing inside the callback on 0, 1, 2 elements). Every ordered combination of operations x every schedule with <=2 (quick) / <=3 (thorough) preemptions, explored by iterative bounding (all schedules with <=1 first, then the full bound under an execution cap that is reported); in the fan-out bodies, where 6-12 symmetric worker goroutines make even the zero-preemption space factorial, the budget is counted in deviations from the deterministic default schedule instead (delay bounding); each goroutine's result must equal the operation's serial result (import cache: the outcome of some add for its key, never nil without error), no deadlock, and the Go race detector must stay silent for frames in arr.ai. non-trivial = execution with more than one scheduling point",
+	Assume: []string{"scheduling points are the sync.Mutex/RWMutex/Once/Cond/WaitGroup operations of arr.ai (every file importing sync is rebuilt against the shim) and the channel/go operations of frozen's gauge.go", "frozen itself and the Go runtime are trusted; the real fan-out threshold (131072 elements) is replaced by the library's own FROZEN_CONCURRENCY knob", "first use of the process-wide standard-library scopes builds the whole arr.ai grammar as a value (thousands of synchronisation points): its 27 three-goroutine combinations are run once each on real goroutines with the race detector and the serial results as oracles (free-running pass, not enumerated)"},
 }
